@@ -112,7 +112,7 @@ def run_neutral_patch(args: Tuple[str, str, str]) -> Dict:
         shutil.rmtree(tmp, ignore_errors=True)
 
 
-TRANSFORMS = ("unparse_round_trip", "alpha_rename_reverse_methods", "return_temps_flip_if", "rename_private_params", "flip_comparisons_swap_products")
+TRANSFORMS = ("unparse_round_trip", "alpha_rename_reverse_methods", "return_temps_flip_if", "rename_private_params", "flip_comparisons_swap_products", "positional_to_keyword_args")
 
 
 def run_transform(args: Tuple[str, str, str]) -> Dict:
